@@ -307,4 +307,145 @@ theorem antiS_sub (d : RawData) (a b : Rat) (hmm : d.minT ≤ d.maxT) (hg : d.ip
   rcases d.zones b hmm with ⟨_, b2, b3, b4, _, b5⟩ | ⟨_, _, b2, b3, b4, _, b5⟩ | ⟨_, _, b2, b3, b4, _, b5⟩ <;>
   rw [a2, a3, a4, a5, b2, b3, b4, b5] <;> (try simp only [r1, r2, r3, r4, r5, r6, L0]) <;> linarith
 
+/-! ### consequences of a successful construction -/
+
+
+theorem constInterp_good {ip : Interp} (c : Rat) (hg : ip.Good) : (constInterp c ip).Good :=
+  ⟨fun a b c' => by simp only [constInterp]; ring, hg.J_add, hg.lg_add⟩
+
+namespace RawData.Built
+variable {ip : Interp} {Href Sref : Rat} {pts : List Pt} {Tref : Rat} {range : Option Range} {d : RawData}
+
+theorem mem_pts (hb : Built ip Href Sref pts Tref range d) (p : Pt) : p ∈ d.pts ↔ p ∈ pts := by
+  obtain ⟨p0, rest, hs, hp, _⟩ := hb.sorted
+  rw [hp, ← hs]; exact (sortPts_perm pts).mem_iff
+
+theorem min_le (hb : Built ip Href Sref pts Tref range d) : ∀ p ∈ pts, d.minT ≤ p.1 := by
+  obtain ⟨p0, rest, hs, hp, hmin, _⟩ := hb.sorted
+  intro p hp'
+  have hsrt := sortPts_sorted pts
+  rw [hs] at hsrt
+  have : p ∈ p0 :: rest := hs ▸ (sortPts_perm pts).mem_iff.mpr hp'
+  rw [hmin]
+  rcases List.mem_cons.mp this with rfl | h
+  · exact le_refl _
+  · exact (List.pairwise_cons.mp hsrt).1 p h
+
+theorem le_max (hb : Built ip Href Sref pts Tref range d) : ∀ p ∈ pts, p.1 ≤ d.maxT := by
+  obtain ⟨p0, rest, hs, hp, _, _, hmax, _⟩ := hb.sorted
+  intro p hp'
+  have hsrt := sortPts_sorted pts
+  rw [hs] at hsrt
+  have : p ∈ p0 :: rest := hs ▸ (sortPts_perm pts).mem_iff.mpr hp'
+  rw [hmax]
+  exact le_lastPt p0 rest hsrt p this
+
+theorem min_mem (hb : Built ip Href Sref pts Tref range d) : (d.minT, d.minCp) ∈ pts := by
+  obtain ⟨p0, rest, hs, hp, hmin, hminc, _⟩ := hb.sorted
+  rw [hmin, hminc]
+  exact (sortPts_perm pts).mem_iff.mp (hs ▸ List.mem_cons_self ..)
+
+theorem max_mem (hb : Built ip Href Sref pts Tref range d) : (d.maxT, d.maxCp) ∈ pts := by
+  obtain ⟨p0, rest, hs, hp, _, _, hmax, hmaxc, _⟩ := hb.sorted
+  rw [hmax, hmaxc]
+  exact (sortPts_perm pts).mem_iff.mp (hs ▸ lastPt_mem p0 rest)
+
+theorem min_le_max (hb : Built ip Href Sref pts Tref range d) : d.minT ≤ d.maxT :=
+  hb.le_max _ hb.min_mem
+
+theorem good (hb : Built ip Href Sref pts Tref range d) (hg : ip.Good) : d.ip.Good := by
+  obtain ⟨p0, rest, _, _, _, _, _, _, h1, h2⟩ := hb.sorted
+  cases rest with
+  | nil => rw [h1 rfl]; exact constInterp_good _ hg
+  | cons q qs => rw [(h2 (by simp)).1]; exact hg
+
+theorem hits (hb : Built ip Href Sref pts Tref range d) (hh : ip.Hits pts) : d.ip.Hits pts := by
+  obtain ⟨p0, rest, hs, _, _, _, _, _, h1, h2⟩ := hb.sorted
+  cases rest with
+  | nil =>
+    rw [h1 rfl]
+    intro p hp
+    have : p ∈ [p0] := hs ▸ (sortPts_perm pts).mem_iff.mpr hp
+    simp at this
+    subst this; rfl
+  | cons q qs => rw [(h2 (by simp)).1]; exact hh
+
+end RawData.Built
+
+theorem checkRange_ok {r : Range} {T : Rat} : checkRange (some r) T = .ok () ↔ r.1 ≤ T ∧ T ≤ r.2 := by
+  unfold checkRange
+  simp only
+  split
+  · rename_i h
+    constructor
+    · intro h'; cases h'
+    · rintro ⟨h1, h2⟩
+      rcases outsideR_true.mp h with h | h
+      · exact absurd h1 (not_le.mpr h)
+      · exact absurd h2 (not_le.mpr h)
+  · rename_i h
+    simpa using outsideR_false.mp (by simpa using h)
+
+theorem checkRange_err {r : Range} {T : Rat} (h : ¬ (r.1 ≤ T ∧ T ≤ r.2)) : checkRange (some r) T = .error .outside := by
+  unfold checkRange
+  simp only
+  split
+  · rfl
+  · rename_i h'
+    exact absurd (outsideR_false.mp (by simpa using h')) h
+
+
+
+/-! ### evaluation in range -/
+section
+variable {ip : Interp} {Href Sref : Rat} {pts : List Pt} {Tref : Rat} {range : Option Range} {d : RawData}
+
+/-- in-range evaluation of H/RT returns the enthalpy numerator divided by `T` -/
+theorem HoRT_in_range (hpos : 0 < d.range.1)
+    {T : Rat} (hT : inRange T (some d.range)) : d.HoRT T = .ok (d.hNum T / T) ∧ T ≠ 0 := by
+  have hne : T ≠ 0 := ne_of_gt (lt_of_lt_of_le hpos hT.1)
+  unfold RawData.HoRT
+  rw [checkRange_ok.mpr hT]
+  simp [hne]
+
+theorem SoR_in_range {T : Rat} (hT : inRange T (some d.range)) : d.SoR T = .ok (d.sVal T) := by
+  unfold RawData.SoR
+  rw [checkRange_ok.mpr hT]
+
+/-- `T·H/RT(T) = T_ref·H_ref/RT_ref + ∫_{T_ref}^{T} CpExt` -/
+theorem hNum_integral (hmk : RawData.mk ip Href Sref pts Tref range = .ok d) (hg : ip.Good) (T : Rat) :
+    d.hNum T = Href * Tref + d.intCp Tref T := by
+  have hb := RawData.mk_built hmk
+  have hadd := (hb.good hg).I_add
+  rw [hNum_eq d T hb.min_le_max hadd, antiH_sub d d.Tref T hb.min_le_max hadd, hb.href, hb.tref]
+
+theorem sVal_integral (hmk : RawData.mk ip Href Sref pts Tref range = .ok d) (hg : ip.Good) (hpos : 0 < d.range.1)
+    {T : Rat} (hT : inRange T (some d.range)) : d.sVal T = Sref + d.intCpT Tref T := by
+  have hb := RawData.mk_built hmk
+  have p1 : 0 < d.minT := lt_of_lt_of_le hpos hb.lo_le_min
+  have p3 : 0 < d.Tref := lt_of_lt_of_le hpos hb.lo_le_ref
+  have p4 : 0 < T := lt_of_lt_of_le hpos hT.1
+  rw [sVal_eq d T hb.min_le_max (hb.good hg) p1 p3 p4, antiS_sub d d.Tref T hb.min_le_max (hb.good hg) p1 p3 p4,
+    hb.sref, hb.tref]
+
+theorem sortPts_of_sorted : ∀ (l : List Pt), l.Pairwise KeyLe → sortPts l = l
+  | [], _ => rfl
+  | p :: ps, h => by
+    rw [List.pairwise_cons] at h
+    show insertPt p (sortPts ps) = p :: ps
+    rw [sortPts_of_sorted ps h.2]
+    cases ps with
+    | nil => rfl
+    | cons q qs => unfold insertPt; rw [if_pos (show p.1 ≤ q.1 from h.1 q (List.mem_cons_self ..))]
+
+theorem sortPts_idem (l : List Pt) : sortPts (sortPts l) = sortPts l := sortPts_of_sorted _ (sortPts_sorted l)
+
+/-- `RawData.mk` sees the points only through their sorted order -/
+theorem mk_sortPts (ip : Interp) (Href Sref : Rat) (pts : List Pt) (Tref : Rat) (range : Option Range) :
+    RawData.mk ip Href Sref (sortPts pts) Tref range = RawData.mk ip Href Sref pts Tref range := by
+  unfold RawData.mk
+  rw [sortPts_idem]
+
+end
+
 end PGA.Thermo
